@@ -9,7 +9,7 @@ LEAN_TARGETS = ['Props.C10']
 REQUIRED_THEOREMS = ['Props.C10.result_dtype_preserved', 'Props.C10.grad_buffer_dtype_shape', "Props.C10.scalar_operand_dtype'", "Props.C10.apply_result_dtype'", 'Props.C10.apply_aligned']
 RULE = ('every public op / nn op / loss (every reduction) / scalar-operator form x operand dtype in {float32, float64} x upstream '
         'gradient dtype in {float32, float64} x shapes incl. 0-d results (full reductions, element indexing, reduced losses): the '
-        'dtype of every result and of every gradient buffer, and the shape of every gradient buffer, are compared with the model '
+        'dtype of every result and of every gradient buffer, and the shape of every gradient buffer, are compared with the model; backward-call histories over one DAG (roots that are leaves already holding a gradient, upstream dtypes alternating) with the dtype of every buffer queried after every call '
         '(values are not compared here). Implementation-only: the float32 result agrees with the float64 result to single '
         'precision. Non-trivial: accepted op with a differentiable operand; counts 0-d results separately.')
 EXHAUSTIVE = {'quick': False, 'thorough': False}
@@ -95,9 +95,35 @@ def _bnhist(c):
     return None
 
 
+def hist_case(rng, dt):
+    """a history of backward calls over one DAG of dtype `dt`: roots are op results AND leaves (a leaf that already holds a
+    gradient accumulates), upstream gradients alternate between float32 and float64; the dtype of every gradient buffer is
+    queried after every call"""
+    P = gen_dag.Prog()
+    for _ in range(rng.randint(1, 3)):
+        sh = rng.pick([(2,), (2, 2), ()])
+        P.add_leaf(sh, [round(v * 8) / 8 for v in gen_dag.rand_data(rng, sh)], rng.chance(.85), dt)
+    tries = 0
+    while sum(1 for n in P.nodes if n['kind'] == 'op') < rng.randint(1, 5) and tries < 40:
+        tries += 1
+        gen_dag.gen_op(rng, P, ['add', 'mul', 'neg', 'sum', 'clone', 'reshape', 'transpose'])
+    lines, _ = P.lines()
+    nt = len(P.tshape)
+    leaf_ids = [n['outs'][0] for n in P.nodes if n['kind'] == 'leaf' and n['rg']]
+    for _ in range(rng.randint(2, 6)):
+        r = rng.pick(leaf_ids) if leaf_ids and rng.chance(.45) else rng.randrange(nt)
+        sh = P.tshape[r]
+        lines.append(f"t bw {r} {show_ints(sh)} {show_floats([round(v * 8) / 8 for v in gen_dag.rand_data(rng, sh, -2, 2)])} {rng.pick(['f32', 'f64'])}")
+        lines += [f't gdtype {k}' for k in range(nt)]
+    return {'kind': 'hist', 'op': 'history', 'dt': dt, 'gdt': 'mixed', 'nout': 1, 'zero_d': any(s_ == () for s_ in P.tshape), 'lines': lines}
+
+
 def cases(rng, tier):
     out = []
     reps = 2 if tier == 'quick' else 40
+    for dt in ('f32', 'f64'):
+        for _ in range(20 * reps):
+            out.append(hist_case(rng, dt))
     for dt in ('f32', 'f64'):
         for _ in range(6 * reps):
             out.append(bnhist_case(rng, dt))
